@@ -21,11 +21,13 @@
 (* cycle entry points = non-gate nodes of a cycle with unbound,            *)
 (* undefaulted cycle parameters).                                          *)
 (*                                                                         *)
-(* TLC explores ALL histories of length <= D.  Every reachable state       *)
-(* prints its history `ops` and the object the last operation created      *)
-(* (tag HIST); harness/props/c07.py replays the histories on the real      *)
-(* objects through the public API and compares every live object with its  *)
-(* own previous observation and with the abstract state printed here.      *)
+(* TLC explores ALL histories of length <= D (C07_MC.tla/.cfg; with        *)
+(* -simulate: random histories plus the complete fan-out of every state    *)
+(* on the way).  Every state prints its history `ops` and the object the    *)
+(* last operation created (tag HIST); harness/props/c07.py replays the      *)
+(* histories on the real objects through the public API and compares every *)
+(* live object with its own previous observation and with the abstract     *)
+(* state printed here (harness/c07_replay.py).                             *)
 (*                                                                         *)
 (* Checked on the model itself:                                            *)
 (*   AppendOnly  (action property) no operation changes an existing object *)
